@@ -446,7 +446,10 @@ class BuiltinModelLoaderGen(ModelLoaderGen):
         if state.parent_path not in state.type_checked_type_paths:
             with state.builder(f"except {bad_type_error}:"):
                 self._gen_raise_bad_type_error(state, bad_type_load_error, namer=state.parent)
-            state.type_checked_type_paths.add(state.parent_path)
+            if isinstance(last_path_el, str):
+                # successful subscription by an integer does not prove that data is a sequence,
+                # mapping with integer keys passes it as well, so explicit check is still required
+                state.type_checked_type_paths.add(state.parent_path)
 
         self._gen_unexpected_exc_catching(state)
 
